@@ -271,6 +271,9 @@ def _history(desc, mat):
     elif kind == 'diffs':
       libcall(curve.BatchDLOfDifferences, pts + [tuple(gmpy.mpz(c) for c in eg.mul_g(cid, 5))], None,
               [2**4, 2**10, 2**14][b % 3])
+    elif kind == 'bigdiffs':
+      # a pair search whose table is larger than the one a weak-private-key search uses (rebuilds the shared table)
+      libcall(curve.BatchDLOfDifferences, pts + [tuple(gmpy.mpz(c) for c in eg.mul_g(cid, 5))], None, 2**20)
     elif kind == 'reset':
       curve._table, curve._table_size = {}, 0
     elif kind == 'sigtwin' and _LAST_ISSUERS:
@@ -398,7 +401,7 @@ def run_contexts(desc):
 
 
 def strat_contexts(tier):
-  hist = st.lists(st.tuples(st.sampled_from(['batchdl', 'diffs', 'reset', 'multg', 'rsa', 'ecall', 'small_table', 'small_table', 'sigtwin', 'sigtwin']),
+  hist = st.lists(st.tuples(st.sampled_from(['batchdl', 'diffs', 'reset', 'multg', 'rsa', 'ecall', 'small_table', 'small_table', 'sigtwin', 'sigtwin', 'bigdiffs', 'bigdiffs']),
                             st.integers(0, 3), st.integers(0, 1000)).map(list), max_size=4)
 
   @st.composite
@@ -415,7 +418,7 @@ def strat_contexts(tier):
       arts = draw(st.lists(st.tuples(st.integers(0, 5), st.sampled_from(['random', 'near', 'near', 'small',
                                                                           'shift', 'same', 'off']),
                                      st.integers(0, 1000)).map(list), min_size=1, max_size=5))
-      check = draw(st.sampled_from([0, 1, 3, 3, 3, 3, 3, 2]))
+      check = draw(st.sampled_from([0, 1, 3, 3, 3, 3, 2, 2]))
     else:
       arts = draw(st.lists(st.tuples(st.integers(0, 3), st.sampled_from(['msb', 'prefix', 'postfix', 'u2f',
                                                                           'uniform', 'uniform']),
@@ -430,5 +433,5 @@ def strat_contexts(tier):
 
 
 ARMS = [
-    Arm('contexts', run_contexts, strategy=strat_contexts, quick=256, thorough=4000, budget=(170, 2400)),
+    Arm('contexts', run_contexts, strategy=strat_contexts, quick=208, thorough=4000, budget=(170, 2400)),
 ]
